@@ -31,7 +31,8 @@ fn marker_item(w: &World, marker: u64) -> Option<(u64, Vec<u8>)> {
         }
         300..=399 => Some((3, RewardAddress::new(1, &Credential::from_scripthash(&w.plutus[if marker == 305 { 0 } else { 1 }].hash())).to_address().to_bytes())),
         400..=499 => Some((1, w.plutus[if marker == 401 { 0 } else { 1 }].hash().to_bytes())),
-        500..=599 => Some((4, w.plutus[if marker == 505 { 0 } else { 2 }].hash().to_bytes())),
+        // voters are identified by (kind, hash): 505 = committee script 0 (kind 1), 506 = DRep script 0 (kind 3)
+        500..=599 => Some((4, [vec![if marker == 505 { 1u8 } else { 3 }], w.plutus[if marker == 505 || marker == 506 { 0 } else { 2 }].hash().to_bytes()].concat())),
         600..=699 => Some((5, guarded_proposal(w, (marker - 600) as usize).to_bytes())),
         _ => None,
     }
@@ -82,7 +83,7 @@ pub fn judge_tx(ctx: &mut Ctx, w: &World, _st: &St, t: &PTx, what: &dyn Fn() -> 
             1 => policies.get(r.index as usize).cloned(),
             2 => t.certs.get(r.index as usize).map(|c| t.bytes[c.start..c.end].to_vec()),
             3 => ras.get(r.index as usize).cloned(),
-            4 => voters.get(r.index as usize).map(|(_, h)| h.clone()),
+            4 => voters.get(r.index as usize).map(|(k, h)| [vec![*k as u8], h.clone()].concat()),
             5 => t.proposals.get(r.index as usize).map(|c| t.bytes[c.start..c.end].to_vec()),
             _ => None,
         };
@@ -111,7 +112,7 @@ pub fn judge_tx(ctx: &mut Ctx, w: &World, _st: &St, t: &PTx, what: &dyn Fn() -> 
                             if insertion_pos == Some(r.index as usize) { "index-equals-wire-position-not-ledger-order" } else { "other" }
                         }
                         4 => {
-                            let wire_pos = t.voters.iter().position(|x| x.1 == want_id);
+                            let wire_pos = t.voters.iter().position(|x| x.0 as u8 == want_id[0] && x.1[..] == want_id[1..]);
                             if wire_pos == Some(r.index as usize) { "index-equals-wire-position-not-ledger-order" } else { "other" }
                         }
                         _ => "other",
